@@ -67,19 +67,60 @@ def shard(s):
     return acc
 
 
+def near_threshold(N):
+    """Compositions of a chain of N residues that lie on or next to one of the three thresholds."""
+    out = set()
+    for t in {N // 4 - 1, N // 4, N // 4 + 1, (7 * N) // 20 - 1, (7 * N) // 20, (7 * N) // 20 + 1, (7 * N) // 20 + 2}:
+        if 0 <= t <= N:
+            out.add((t, 0))
+            out.add((0, t))
+            out.add((t - t // 3, t // 3))
+    for d in {(7 * N) // 20 - 1, (7 * N) // 20, (7 * N) // 20 + 1}:
+        for tot in (min(N, d + 2 * (N // 10)), min(N, (7 * N) // 20 + 3)):
+            if 0 <= d <= tot and (tot - d) % 2 == 0:
+                a, b = (tot + d) // 2, (tot - d) // 2
+                out.add((a, b))
+                out.add((b, a))
+    return sorted((p, n, N - p - n) for p, n in out if p + n <= N)
+
+
+def shard_long(s):
+    acc = core.Acc()
+    for N in s["Ns"]:
+        for (p, n, z) in near_threshold(N):
+            acc.states += 1
+            acc.traces += 1
+            acc.nontrivial += 1
+            v, exp, got = check_case({"kind": "region", "p": p, "n": n, "N": N, "how": "blocks", "k": 0})
+            acc.transitions += 1
+            acc.evaluations += 1
+            acc.out(got)
+            for x in v:
+                acc.viol(x["key"], x["what"], x["case"])
+    return acc
+
+
+def shard_any(s):
+    return shard_long(s) if "Ns" in s else shard(s)
+
+
 def run(tier, seed, t0):
     NK = 60 if tier == "quick" else 150
     comps = list(R.compositions(NK))
     nsh = 16 * 8
     shards = [{"comps": comps[i::nsh], "NI": 12} for i in range(nsh)]
-    acc = core.pmap(shard, shards)
+    NL = 1300 if tier == "quick" else 6000
+    longNs = list(range(NK + 1, NL + 1))
+    shards += [{"Ns": longNs[i::64]} for i in range(64)]
+    acc = core.pmap(shard_any, shards)
     return core.finish(
         PROP, tier, seed, acc, t0,
         rule="state = one triple (n+,n-,N), every triple with 1<=N<=%d, realised as a block sequence (K/E/G) and a reversed "
              "block sequence in a rotating 20-residue spelling (plus two interleaved realisations for N<=12); one real "
              "get_phasePlotRegion() call per realisation compared with the exact rational threshold cascade; any exception is a "
-             "violation; non-trivial = triples lying exactly on a threshold (FCR=1/4, FCR=7/20 or |NCPR|=7/20); outcomes = "
-             "distinct regions returned" % NK,
+             "violation; for EVERY chain length up to %d the compositions on or next to each threshold (about 20 per length) are checked as "
+             "well; non-trivial = triples lying exactly on a threshold (FCR=1/4, FCR=7/20 or |NCPR|=7/20); outcomes = "
+             "distinct regions returned" % (NK, NL),
         bounds={"N": NK},
         assumptions=["reference cascade vmc/refmodel/charge.py:region uses exact rationals; a correctly rounded float "
                      "quotient equals the double 0.35/0.25 exactly when the rational is 7/20 / 1/4 and is >= 1/(20N) away otherwise"],
